@@ -25,12 +25,14 @@ def run(ctx):
         mc_cyc.run_cyclepoints(ctx, 'C01', 8, 1, [0, 1], [0])
         mc_feat.run_pipeline(ctx, 'C01', 9, 1)          # the whole analysis as one stage machine, end to end
         pipeline.run_corpus(ctx, 260, PREFIXES, seed_offset=1, via_object_every=4, max_len=900)
+        pipeline.run_large(ctx, PREFIXES, 1, 3, 1)          # beyond small scopes: long cycles, long recordings
     else:
         mc_cyc.run_cyclepoints(ctx, 'C01', 9, 1, [0, 1, 2], [0])
         mc_cyc.run_cyclepoints(ctx, 'C01', 7, 2, [0, 1], [0])
         mc_feat.run_pipeline(ctx, 'C01', 10, 1)
         mc_feat.run_pipeline(ctx, 'C01', 8, 2)
         pipeline.run_corpus(ctx, 4000, PREFIXES, seed_offset=1, via_object_every=4, max_len=2600)
+        pipeline.run_large(ctx, PREFIXES, 1, 12, 6)          # beyond small scopes: long cycles, long recordings
 
 
 def replay(ctx, case):
